@@ -452,7 +452,10 @@ func (p *flagParser) parsePrimitive(stopSet string) (interface{}, error) {
 		// -9223372036854775809 would unpack into an int64 as
 		// -9223372036854775808. Such a numeral stays text (integer targets
 		// refuse it, float targets round it, string targets keep every digit).
-		if ne, ok := intErr.(*strconv.NumError); ok && ne.Err == strconv.ErrRange && n >= -(1<<63) && n < (1<<64) {
+		// (ParseInt reports the range error as soon as the leading digits
+		// overflow: a number in float syntax such as 100000000000000000000e-20
+		// gets here too, and is a float like any other.)
+		if ne, ok := intErr.(*strconv.NumError); ok && ne.Err == strconv.ErrRange && n >= -(1<<63) && n < (1<<64) && !strings.ContainsAny(content, ".eEpP") {
 			return content, nil
 		}
 		return n, nil
